@@ -597,3 +597,102 @@ impl From<ToolTaskStatus> for ApiToolTaskStatus {
         }
     }
 }
+
+/// Verification-only direct drivers of the log writer, the range reader and the output pump
+/// (compiled only with `--cfg rip_verif`; re-exported by `crate::verif`).
+#[cfg(rip_verif)]
+pub(crate) mod verif_hooks {
+    use std::path::Path;
+    use std::sync::Arc;
+
+    use rip_kernel::{Event, ToolTaskStream};
+    use rip_log::EventLog;
+    use serde_json::Value;
+
+    use super::logs::{new_artifact_id, TaskLogWriter};
+    use super::{TaskEmitter, TaskEngine, TaskEngineConfig, TaskSpawnPayload};
+
+    fn config(workspace_root: &Path, cap: usize, preview: usize) -> TaskEngineConfig {
+        TaskEngineConfig {
+            workspace_root: workspace_root.to_path_buf(),
+            artifact_max_bytes: cap,
+            max_bytes: preview,
+        }
+    }
+
+    /// `TaskLogWriter::new` + one `append` per chunk + `finish`.
+    /// Returns (artifact id, per-append JSON (None = append error), summary JSON).
+    pub async fn log_writer_run(
+        workspace_root: &Path,
+        cap: usize,
+        chunks: &[Vec<u8>],
+    ) -> Result<(String, Vec<Option<Value>>, Value), String> {
+        let config = config(workspace_root, cap, 0);
+        std::fs::create_dir_all(config.artifacts_blobs_dir()).map_err(|e| e.to_string())?;
+        let id = new_artifact_id();
+        let rel = format!(".rip/artifacts/blobs/{id}");
+        let mut writer = TaskLogWriter::new(&config, &id, &rel, cap).await?;
+        let mut out = Vec::with_capacity(chunks.len());
+        for chunk in chunks {
+            out.push(writer.append(chunk).await.ok());
+        }
+        let summary = writer.finish().as_json();
+        Ok((id, out, summary))
+    }
+
+    pub fn truncate_utf8(bytes: &[u8], max_bytes: usize) -> (String, bool, usize) {
+        super::logs::truncate_utf8(bytes, max_bytes)
+    }
+
+    pub fn read_artifact_range(
+        workspace_root: &Path,
+        id: &str,
+        offset_bytes: u64,
+        max_bytes: usize,
+    ) -> Result<(String, usize, u64, bool), String> {
+        super::logs::read_artifact_range(&config(workspace_root, 0, 0), id, offset_bytes, max_bytes)
+    }
+
+    /// The real `pump_output_stream` over `stream`, with a real emitter (task stream + event log).
+    /// Returns (artifact id, emitted frames, summary JSON).
+    pub async fn pump_run(
+        data_dir: &Path,
+        workspace_root: &Path,
+        stream: Box<dyn tokio::io::AsyncRead + Unpin + Send>,
+        cap: usize,
+        preview: usize,
+    ) -> Result<(String, Vec<Event>, Value), String> {
+        let config = config(workspace_root, cap, preview);
+        std::fs::create_dir_all(config.artifacts_blobs_dir()).map_err(|e| e.to_string())?;
+        let event_log =
+            Arc::new(EventLog::new(data_dir.join("events.jsonl")).map_err(|e| e.to_string())?);
+        let engine = TaskEngine::new(
+            config.clone(),
+            Arc::new(crate::workspace_lock::WorkspaceLock::new()),
+            event_log.clone(),
+            Arc::new(data_dir.join("task_snapshots")),
+        );
+        let handle = engine.create_task(&TaskSpawnPayload {
+            tool: "bash".to_string(),
+            args: Value::Null,
+            title: None,
+            execution_mode: None,
+            origin_session_id: None,
+        });
+        let emitter = TaskEmitter::new(&handle, event_log);
+        let id = new_artifact_id();
+        let rel = format!(".rip/artifacts/blobs/{id}");
+        let mut writer = TaskLogWriter::new(&config, &id, &rel, cap).await?;
+        super::pipes::verif_pump_output_stream(
+            stream,
+            ToolTaskStream::Stdout,
+            &handle.task_id,
+            &emitter,
+            &mut writer,
+            preview,
+        )
+        .await;
+        let summary = writer.finish().as_json();
+        Ok((id, handle.events_snapshot().await, summary))
+    }
+}
